@@ -200,3 +200,84 @@ Example C01_feature_table_example :
   | _ => False
   end.
 Proof. vm_compute. reflexivity. Qed.
+
+(* the DBLINK header field.  The writer prints  name ": " value  per cross
+   reference, the first after "DBLINK      ", the others on lines indented by
+   the field depth; the reader cuts every line at its FIRST colon and skips
+   two bytes.  For every non-empty list of references with pairwise different
+   names, names without colon or line break and values without line break
+   (colons and ": " inside a value included), what p_dblink runs after the
+   field name (dblink_body: first pair, then the continuation loop) reads the
+   written text back as exactly that list, whatever follows, as long as the
+   next line is not indented like a continuation; and that text is what
+   GenBank.String writes after the field name. *)
+From GTS Require Import DblinkRT.
+Theorem C01_dblink_roundtrip_partial : forall depth kv ps post o e a k,
+  Forall pair_ok (kv :: ps) -> NoDup (map fst (kv :: ps)) ->
+  is_prefix (repeat_byte 32 depth) post = false ->
+  exists s', dblink_body depth [] (mkst (dblink_text depth (kv :: ps) ++ post) o e a k) =
+    (Ok (kv :: ps, None), s') /\ rest s' = post /\ stk s' = k.
+Proof. exact dblink_roundtrip. Qed.
+Print Assumptions C01_dblink_roundtrip_partial.
+
+Theorem C01_dblink_written_text : forall kv ps,
+  dblink_written (kv :: ps) = [68;66;76;73;78;75;32;32;32;32;32;32] ++ dblink_text 12 (kv :: ps).
+Proof. exact dblink_written_text. Qed.
+
+(* values with colons, the case a reader that splits at every ": " gets wrong *)
+Example C01_dblink_example :
+  let ps := [([65; 114; 99], [83; 82; 82; 49; 44; 32; 114; 117; 110; 58; 32; 102; 105; 114; 115; 116; 58; 32; 50]);
+             ([79], [97; 58; 98; 32; 58; 32; 99])] in
+  Forall pair_ok ps /\ NoDup (map fst ps) /\
+  fst (dblink_body 12 [] (st_of (dblink_text 12 ps ++ [75; 69; 89]))) = Ok (ps, None).
+Proof.
+  cbv zeta. split; [|split].
+  - repeat constructor; cbn; try discriminate; try lia.
+  - repeat constructor; cbn; intuition discriminate.
+  - vm_compute. reflexivity.
+Qed.
+
+(* a named header field (genbankFieldParser: DEFINITION, ACCESSION, VERSION,
+   COMMENT and the extra fields go through it).  Written as the name, padding
+   to the field depth, AddPrefix(text, indent), newline; read back -- name
+   parser with its padding alternative, first line, continuation loop -- as
+   exactly the text, whatever follows, unless the next line is indented like a
+   continuation.  Text = first line l0 and further lines ls, none with a line
+   break inside; on the faithful pars model with the caller's frame in place. *)
+From GTS Require Import ParsSpec FieldRT.
+Theorem C01_named_field_roundtrip_partial : forall name depth l0 ls post o e a fr k,
+  zlen name <= depth -> no_eol l0 -> Forall no_eol ls -> is_prefix (repeat_byte 32 depth) post = false ->
+  exists s', generic_field_parser name depth
+               (mkst (name ++ repeat_byte 32 (depth - zlen name) ++
+                      (add_prefix (l0 ++ joined 10 ls) (repeat_byte 32 depth) ++ [10]) ++ post) o e a (fr :: k)) =
+             (Ok (l0 ++ joined 10 ls, 0), s') /\ rest s' = post /\ stk s' = fr :: k.
+Proof. exact generic_field_roundtrip. Qed.
+Print Assumptions C01_named_field_roundtrip_partial.
+
+Theorem C01_one_line_field_roundtrip_partial : forall name depth v post o e a fr k,
+  zlen name <= depth -> no_eol v -> is_prefix (repeat_byte 32 depth) post = false ->
+  exists s', generic_field_parser name depth
+               (mkst ((name ++ repeat_byte 32 (depth - zlen name) ++ v ++ [10]) ++ post) o e a (fr :: k)) =
+             (Ok (v, 0), s') /\ rest s' = post /\ stk s' = fr :: k.
+Proof. exact one_line_field_roundtrip. Qed.
+Print Assumptions C01_one_line_field_roundtrip_partial.
+
+Example C01_version_example :
+  fst (generic_field_parser n_VERSION 12
+         (mkst ([86;69;82;83;73;79;78;32;32;32;32;32] ++ [84; 48; 46; 49] ++ nl ++ [75; 69; 89]) 0 None 0 [([], 0, 0)]))
+  = Ok ([84; 48; 46; 49], 0).
+Proof. vm_compute. reflexivity. Qed.
+
+(* the KEYWORDS field as a whole (keywords_inner is what p_keywords runs inside
+   its error wrapper): the list, joined by "; " with a final period, wrapped at
+   blanks to any width, continuation lines indented, is read back as the list *)
+Theorem C01_keywords_field_roundtrip_partial : forall depth ks n post o e a fr k,
+  zlen n_KEYWORDS <= depth -> Forall nosep ks -> join_semi ks <> [] ->
+  Forall (fun c => c <> 10) (join_semi ks ++ [46]) -> no_cr (join_semi ks ++ [46]) ->
+  is_prefix (repeat_byte 32 depth) post = false ->
+  exists s', keywords_inner depth
+               (mkst (n_KEYWORDS ++ repeat_byte 32 (depth - zlen n_KEYWORDS) ++
+                      (add_prefix (wrap_space (join_semi ks ++ [46]) n) (repeat_byte 32 depth) ++ [10]) ++ post) o e a (fr :: k)) =
+             (Ok ks, s') /\ rest s' = post /\ stk s' = fr :: k.
+Proof. exact keywords_field_roundtrip. Qed.
+Print Assumptions C01_keywords_field_roundtrip_partial.
